@@ -157,4 +157,9 @@ Definition lsub_implied (subs : list str) (reference pattern : str) : list str :
 
 (** (names answered with \Noselect — a set in the implementation —, names answered as subscribed) *)
 Definition lsub_names (subs : list str) (reference pattern : str) : list str * list str :=
-  (lsub_implied subs reference pattern, filter_mailboxes subs reference pattern).
+  (lsub_implied subs reference pattern,
+   (* FilterMailboxes adds INBOX whenever the pattern matches it; HandleLsub keeps
+      it only if a case variant of INBOX is subscribed (92c7b86) *)
+   let ms := filter_mailboxes subs reference pattern in
+   if existsb (fun m => str_eqb (to_upper m) INBOX) subs then ms
+   else filter (fun m => negb (str_eqb m INBOX)) ms).
